@@ -88,12 +88,19 @@ pub fn run(ctx: &mut Ctx, o: &AttackOpts) {
         // make sure there is something hidden, nested and in an array
         claims["sub"] = json!("subject");
         claims["addr"] = json!({"street": "s", "city": {"name": "c", "zip": 7}});
-        claims["nat"] = json!(["DE", ["FR", "IT"], {"x": 1}]);
-        let strat = StratSpec::simple("all");
+        claims["nat"] = json!(["DE", ["FR", null, "IT"], {"x": 1}, null, false, 0, ""]);
+        // every node disclosable, or only nodes INSIDE containers that stay visible (inner array elements, nested members)
+        let strat = if base % 3 == 2 {
+            let p = |raw: &str, tok: &[&str]| PathSpec { raw: raw.to_string(), tok: tok.iter().map(|s| s.to_string()).collect(), malformed: false };
+            StratSpec { kind: "custom", paths: vec![p("$.nat[1][0]", &["nat", "[1]", "[0]"]), p("$.nat.[1].[1]", &["nat", "[1]", "[1]"]), p("$.nat[2].x", &["nat", "[2]", "x"]), p("$.nat[3]", &["nat", "[3]"]),
+                                                    p("$.addr.city.name", &["addr", "city", "name"]), p("$.addr.street", &["addr", "street"]), p("$.sub", &["sub"])] }
+        } else {
+            StratSpec::simple("all")
+        };
         let mut issuer = new_issuer(key, alg);
         let Some(issued) = issue(ctx, &mut issuer, &IssueArgs { inst: "I1", key, alg, claims: &claims, strat: &strat, hk: Some(hk), decoy: base % 4 < 2, fmt }).ok() else { continue };
         let Some(mut holder) = holder_new(ctx, "P1", &issued, fmt).ok() else { continue };
-        let sel = match json!({"addr": {"street": true, "city": {"name": true}}, "nat": [true, [true, false], {"x": true}], "sub": true}) {
+        let sel = match json!({"addr": {"street": true, "city": {"name": true}}, "nat": [true, [true, true, false], {"x": true}, true, false, true], "sub": true}) {
             Value::Object(m) => m,
             _ => unreachable!(),
         };
@@ -125,6 +132,26 @@ pub fn run(ctx: &mut Ctx, o: &AttackOpts) {
         // control: the untouched presentation, with and without asking for key binding
         go(ctx, &m, true);
         go(ctx, &m, false);
+        // the SAME token again, but the resolver now returns other keys (of every family)
+        if fam == "jwt" {
+            for other in ["K1", "K2", "KE1", "KE2", "S1", "S2"] {
+                if other != key {
+                    let raw = msg::render(&m, fmt, JsonVariant::KbAbsent);
+                    verify(ctx, &VerifyArgs { raw: &raw, fmt, res: &Resolver::Const(other.to_string()), aud: None, nonce: None, pair: 0, expect: NONE.to_string() });
+                }
+            }
+            go(ctx, &m, false);
+        }
+        // expectations that are prefixes / extensions of what the KB-JWT names
+        if fam == "kb" {
+            let (n, a) = (kb.nonce.clone().unwrap(), kb.aud.clone().unwrap());
+            for (nn, aa) in [(format!("{}1", n), a.clone()), (n[..n.len() - 1].to_string(), a.clone()), (String::new(), a.clone()), (n.clone(), format!("{}/", a)), (n.clone(), a[..a.len() - 1].to_string()), (n.clone(), String::new())] {
+                for f in [fmt, fmt.other()] {
+                    let raw = msg::render(&m, f, JsonVariant::KbAbsent);
+                    verify(ctx, &VerifyArgs { raw: &raw, fmt: f, res: &res, aud: Some(&aa), nonce: Some(&nn), pair: 0, expect: NONE.to_string() });
+                }
+            }
+        }
         if fam == "jwt" {
             let off = r.gen_range(0..o.stride);
             for i in (off..m.jwt.len()).step_by(o.stride) {
